@@ -474,12 +474,10 @@ impl<T: Clone + Into<Obj> + Display + Debug + 'static + MaybeSync + MaybeSend> S
         Box::new(self.clone())
     }
     fn len(&self) -> Option<usize> {
-        None
+        Some(self.0.len() - self.1)
     }
     fn force(&self) -> NRes<Vec<Obj>> {
-        Err(NErr::value_error(
-            "Cannot force repeat because it's infinite".to_string(),
-        ))
+        Ok(self.0[self.1..].iter().map(|x| x.clone().into()).collect())
     }
     // fn pythonic_index_isize...
     // fn pythonic_slice...
